@@ -177,6 +177,8 @@ pub fn build_dummy_circuit_inputs() -> Result<CircuitInputs> {
 /// The circuit will hash this to produce the actual nullifier.
 pub(crate) fn generate_random_nullifier_preimage() -> BytesDigest {
     let mut rng = rand::thread_rng();
+    #[cfg(feature = "verif-hooks")]
+    let mut rng = crate::verif_hooks::rng();
     loop {
         let mut nullifier = [0u8; 32];
         rng.fill(&mut nullifier);
